@@ -63,6 +63,8 @@ ValidVec(v) ==
   /\ (v["kinds"] \notin {"all", "const"} => v["consts"] = Base["consts"])
   /\ (v["consts"] = "xinc" => v["inc"] # "single")
   /\ (v["kinds"] \in {"const", "enum"} => v["reqdef"] = Base["reqdef"] /\ v["ids"] = Base["ids"])
+  \* two files called common.thrift without a go namespace would both claim the Go package `common`: not a well-formed set
+  /\ (v["inc"] = "samebase" => v["ns"] \notin {"none", "other"})
 
 \* the closest meaningful vector: dimensions that cannot matter are put back to Base
 Norm(v) == [d \in Dims |->
@@ -72,6 +74,7 @@ Norm(v) == [d \in Dims |->
   ELSE IF d = "ext" /\ v["ext"] = "include" /\ v["inc"] = "single" THEN "local"
   ELSE IF d = "throws" /\ v["svc"] = "oneway" THEN "0"
   ELSE IF d = "consts" /\ v["consts"] = "xinc" /\ v["inc"] = "single" THEN "scalars"
+  ELSE IF d = "ns" /\ v["inc"] = "samebase" /\ v["ns"] \in {"none", "other"} THEN "plain"
   ELSE v[d]]
 
 Off1(b) == UNION {{[b EXCEPT ![d] = x] : x \in Dom[d]} : d \in Dims}
